@@ -13,7 +13,8 @@ def run(ctx, intensify=False):
     res = PropResult()
     names = kvalid.OBJ_NAMES
     shards = ([(ctx.seed, [n], "assign") for n in names] + [(ctx.seed, [n], "construct") for n in names]
-              + [(ctx.seed + 2, [n], "noop-first") for n in names])
+              + [(ctx.seed + 2, [n], "noop-first") for n in names]
+              + [(ctx.seed + 3, [n], "listops") for n in ("step", "uj", "up", "sys")])
     if ctx.tier == "thorough" or intensify:
         shards += [(ctx.seed + 1, [n], "grouped") for n in names]
     outs = ctx.pmap(kvalid.shard, shards)
@@ -22,7 +23,7 @@ def run(ctx, intensify=False):
     kinds = {}
     for r in results:
         kinds[r["invalid"]] = kinds.get(r["invalid"], 0) + 1
-    dis, ncorr = kvalid.correspondence(results)
+    dis, ncorr = kvalid.correspondence([r for r in results if not r.get("list_method")])
     res.suites.append({"name": "K-valid", "cases": ncorr, "observations": len(results), "disagreements": dis,
                        "inconclusive": 0, "distribution": {"invalid_kinds": kinds,
                                                            "classes": len({r["cls"] for r in results}),
@@ -31,7 +32,8 @@ def run(ctx, intensify=False):
     res.distinct_nontrivial = len({(r["cls"], r["param"], r["invalid"], r.get("construction", False), r.get("grouped", False)) for r in results})
     res.rule = ("exhaustive: every public class × every __init__ parameter × every kind of invalid value (wrong dimension, "
                 "negative, wrong type, wrong class in list, outside allowed list), at construction and on assignment after "
-                "a short valid history (thorough: also inside a grouped update); a deep snapshot (identity and value of every "
+                "a short valid history (thorough: also inside a grouped update), and through every list mutator (append, insert, "
+                "extend, +=, item assignment) for list attributes; a deep snapshot (identity and value of every "
                 "attribute, links, reverse links, graph edges) is compared before/after each refused assignment")
     res.samples = results[:2]
     res.oracle_info = {"cases": len(results), "refused": sum(1 for r in results if r["raised"]),
